@@ -19,9 +19,9 @@ Record case := {
   k_obs : list odeliv; k_final : ofinal }.
 
 (* compact constructors for the generated literals *)
-Definition I (inst : nat) (env : peer) (from : option nat) (other_tree : bool) (si : option nat)
-  (ty payload : nat) : inj :=
-  {| i_inst := inst; i_env := env;
+Definition I (inst : nat) (env : peer) (decl : option nat) (from : option nat) (other_tree : bool)
+  (si : option nat) (ty payload : nat) : inj :=
+  {| i_inst := inst; i_env := env; i_decl := decl;
      i_wire := {| w_from := from; w_from_other_tree := other_tree; w_si := si;
                   w_type := ty; w_payload := payload |} |}.
 Definition E (n : onode) (payload : nat) : oelem := {| o_node := n; o_payload := payload |}.
